@@ -275,6 +275,16 @@ theorem from_pair (a b : Ty) (x y : SVal) :
 theorem from_map (k v : Ty) (es : List (SVal × SVal)) :
     from_ tb (.map k v) (.map es) =
       mapE (pairE (from_ tb k) (from_ tb v)) es := rfl
+theorem from_pair_long (a b : Ty) (x y : SVal) (rest : List SVal) :
+    from_ tb (.pair a b) (.list (x :: y :: rest)) =
+      (if !rest.isEmpty && tb.pairExact then .error .conversion
+       else match from_ tb a x with
+        | .error e => .error e
+        | .ok x' => match from_ tb b y with
+          | .error e => .error e
+          | .ok y' => .ok (x', y')) := rfl
+theorem from_pair_short0 (a b : Ty) : from_ tb (.pair a b) (.list []) = .error .conversion := rfl
+theorem from_pair_short1 (a b : Ty) (x : SVal) : from_ tb (.pair a b) (.list [x]) = .error .conversion := rfl
 theorem from_set (k : Ty) (xs : List SVal) : from_ tb (.set k) (.set xs) = mapE (from_ tb k) xs := rfl
 theorem from_res_okv (t e : Ty) (w : SVal) : from_ tb (.res t e) (.okv w) = (from_ tb t w).map .inl := rfl
 theorem from_res_errv (t e : Ty) (w : SVal) : from_ tb (.res t e) (.errv w) = (from_ tb e w).map .inr := rfl
